@@ -228,7 +228,7 @@ Qed.
 
 Theorem from_dict_inv d st : labels_from_dict d = Ok st -> labels_inv st /\ labels_wf st.
 Proof.
-  unfold labels_from_dict. intro H. apply as_result_ok in H. subst. split.
+  unfold labels_from_dict. generalize (from_json_keys d). intros d' H. apply as_result_ok in H. subst. split.
   - apply set_fields_inv, init_inv.
   - unfold labels_wf. rewrite set_fields_keys. apply init_wf.
 Qed.
@@ -327,9 +327,29 @@ Lemma label_fields_nodup : NoDup label_fields.
 Proof. apply nodup_strb_NoDup. vm_compute. reflexivity. Qed.
 
 (* whatever was accepted is accepted again after to_dict/to_json -> from_json, and gives the same object *)
+Lemma encode_keys st : forall kv, In kv (labels_encode st) -> In (fst kv) (map fst st).
+Proof.
+  induction st as [|[k ov] st IH]; intros kv H; [contradiction|].
+  destruct ov as [v|].
+  - change (labels_encode ((k, Some v) :: st)) with ((k, v) :: labels_encode st) in H. destruct H as [<-|H]; [left; reflexivity | right; apply IH; exact H].
+  - change (labels_encode ((k, None) :: st)) with (labels_encode st) in H. right; apply IH; exact H.
+Qed.
+
+Lemma filter_all {A} (p : A -> bool) l : (forall x, In x l -> p x = true) -> filter p l = l.
+Proof.
+  induction l as [|x l IH]; intro H; simpl; [reflexivity|].
+  rewrite (H x (or_introl eq_refl)). f_equal. apply IH. intros y Hy. apply H. right; exact Hy.
+Qed.
+
+Lemma from_json_keys_encode st : labels_wf st -> from_json_keys (labels_encode st) = labels_encode st.
+Proof.
+  intro Hw. unfold from_json_keys. destruct from_json_prefilters; [|reflexivity].
+  apply filter_all. intros kv H. apply encode_keys in H. rewrite Hw in H. apply mem_str_In; exact H.
+Qed.
+
 Theorem accepted_recodes st : labels_inv st -> labels_wf st -> labels_recode st = Ok st.
 Proof.
-  intros Hi Hw. unfold labels_recode, labels_from_dict.
+  intros Hi Hw. unfold labels_recode, labels_from_dict. rewrite (from_json_keys_encode st Hw).
   assert (Hb : labels_init = [] ++ blank st).
   { unfold labels_init, blank. rewrite <- Hw, map_map. reflexivity. }
   rewrite Hb, recode_gen; [reflexivity | | exact Hi |].
